@@ -47,7 +47,7 @@ def cases(tier, seed):
                 "id": f"c16-{k}", "fact": fact, "cal": cal, "strategy": strategy, "ts": ts,
                 "init": rng.choice(["exact", "inexact"]), "equal_noise": rng.random() < 0.5, "nu": rng.randint(1, 3),
                 "theta": {"a": rng.uniform(0.5, 1.5), "b": rng.uniform(0.2, 0.8), "u0": rng.uniform(0.6, 1.4), "base": rng.uniform(0.5, 2.0), "noise": rng.uniform(0.05, 0.3)},
-                "seedw": rng.randrange(10**9), "cost": 30.0, "all_reverse": tier == "thorough",
+                "seedw": rng.randrange(10**9), "cost": 30.0, "all_reverse": tier == "thorough", "exact_first_datum": k % 2 == 1,
             }
         )
     return out
@@ -77,7 +77,12 @@ def _build_F(case, param, only=None):
     w_mean = jnp.asarray(r.normal(size=(T - 1, 2)))
     w_std = jnp.asarray(r.uniform(0.5, 1.5, size=(T - 1, 2)))
     data_T = jnp.asarray(r.normal(size=(2,)) * 0.1 + 0.5)
-    data_ts = jnp.asarray(r.normal(size=(T, 2)) * 0.1 + 0.5)
+    data_ts = np.asarray(r.normal(size=(T, 2)) * 0.1 + 0.5)
+    if case.get("exact_first_datum"):
+        # the first datum coincides exactly with the (exactly known) initial value: the whitened residual of that term is
+        # exactly zero, where the log-density is smooth but a norm-based implementation is not (seed C16-s3)
+        data_ts[0] = float(th0["u0"]) * np.asarray([1.0, 0.5])
+    data_ts = jnp.asarray(data_ts)
     # equal noise: identical over time *and* dimensions (the situation of repeated singular values)
     noise_t = jnp.ones((T,)) if case["equal_noise"] else jnp.asarray(r.uniform(0.7, 1.4, size=(T,)))
     noise_d = jnp.asarray([1.0, 1.0]) if case["equal_noise"] else jnp.asarray([1.0, 1.3])
